@@ -173,7 +173,7 @@ def gen_points(rng, fam, L):
     return p1[:60], p2[:60]
 
 
-FAMILIES = ['pairs', 'seam', 'pole', 'dups', 'allsky', 'smallchunk', 'polebound', 'highdec', 'dtype', 'arc', 'threshold', 'edges', 'convex']
+FAMILIES = ['pairs', 'seam', 'pole', 'dups', 'allsky', 'smallchunk', 'polebound', 'highdec', 'dtype', 'arc', 'near', 'selfmatch', 'threshold', 'edges', 'convex']
 
 
 def polebound_case(rng):
@@ -406,7 +406,77 @@ def history_cases(rng):
     return [c for c in h if admissible(c)]
 
 
+NEAR_DELTAS = [1e-3, 1e-5, 1e-7, 1e-9]
+
+
+def near_case(rng):
+    """pairs whose separation is L(1 + d) for d = +-1e-3 ... +-1e-9, L from milli-arcseconds to degrees; the positions sit
+    at small RA / Dec so that the doubles resolve such differences; which side of L a pair is on is decided by the
+    implementation's own gcirc on these doubles (exact comparison of the two doubles in the Coq checker)"""
+    L = rng.choice([1.0 / 3.6e6, 5.0 / 3.6e6, 1.0 / 3600.0, 1.0 / 60.0, 0.3, 2.0, 10.0])
+    p1, p2 = [], []
+    ra0, dec0 = rng.uniform(0.1, 1.5), rng.uniform(-0.8, 0.8)
+    step = max(3.0 * L, 1e-5)
+    for k in range(rng.randint(3, 9)):
+        a = (ra0 + k * step * 1.7, dec0 + rng.choice([0.0, 0.4, -0.3]) * step)
+        p1.append(a)
+        d = rng.choice([-1.0, 1.0]) * rng.choice(NEAR_DELTAS)
+        if rng.random() < 0.6:
+            p2.append((a[0], a[1] + rng.choice([-1.0, 1.0]) * L * (1.0 + d)))               # along Dec
+        else:
+            p2.append((a[0] + rng.choice([-1.0, 1.0]) * L * (1.0 + d) / math.cos(a[1] * D2R), a[1]))   # along RA
+    rng.shuffle(p2)
+    return limit_cost({'fam': 'near', 'ra1': [p[0] for p in p1], 'dec1': [p[1] for p in p1], 'ra2': [norm_ra(p[0]) for p in p2],
+                       'dec2': [p[1] for p in p2], 'L': L, 'chunksize': rng.choice([None, None, max(4.0 * L, 0.05), 0.5]),
+                       'maxmatch': rng.choice([0, 0, 1])})
+
+
+def selfmatch_case(rng):
+    """calling conventions: the second list IS the first (same objects), an equal copy, a permuted copy; exact duplicates
+    inside a list; one list a subset of the other"""
+    base = None
+    for _ in range(50):
+        base = gen_case(rng, rng.choice(['pairs', 'dups', 'seam', 'dtype', 'pairs']))
+        if admissible(base) and 2 <= len(base['ra1']) <= 20:
+            break
+    c = dict(base)
+    pts = list(zip(c['ra1'], c['dec1']))
+    if rng.random() < 0.5:                    # exact duplicates inside list 1
+        pts += [pts[rng.randrange(len(pts))] for _ in range(rng.randint(1, 3))]
+        pts = pts[:24]
+    if rng.random() < 0.5:                    # close neighbours inside list 1, so that a point has other matches than itself
+        L = c['L']
+        for a in list(pts)[:4]:
+            b = offset_point(float(a[0]), float(a[1]), L * rng.choice([0.3, 0.7, 0.95]), rng.uniform(0, 360))
+            if c.get('dtype'):
+                b = (int(round(b[0])) % 360, max(-89, min(89, int(round(b[1])))))
+            pts.append(b)
+        pts = pts[:26]
+    c['ra1'], c['dec1'] = [p[0] for p in pts], [p[1] for p in pts]
+    kind = rng.choice(['same-object', 'equal-copy', 'permuted-copy', 'subset', 'superset'])
+    if c.get('dtype'):
+        c['dtype'] = dict(c['dtype'], ra2=c['dtype'].get('ra1', 'float64'), dec2=c['dtype'].get('dec1', 'float64'))
+    q = list(pts)
+    if kind == 'permuted-copy':
+        rng.shuffle(q)
+    elif kind == 'subset':
+        q = rng.sample(q, max(1, len(q) // 2))
+    elif kind == 'superset':
+        q = q + [sphere_point(rng) if not c.get('dtype') else (rng.randint(0, 359), rng.randint(-80, 80)) for _ in range(3)]
+        rng.shuffle(q)
+    c['ra2'], c['dec2'] = [p[0] for p in q], [p[1] for p in q]
+    c['second'] = 'same-object' if kind == 'same-object' else 'copy'
+    c['fam'] = 'selfmatch'
+    c['selfmatch_kind'] = kind
+    c['maxmatch'] = rng.choice([0, 0, 1, 2])
+    return limit_cost(c)
+
+
 def gen_case(rng, fam):
+    if fam == 'near':
+        return near_case(rng)
+    if fam == 'selfmatch':
+        return selfmatch_case(rng)
     if fam == 'arc':
         return arc_case(rng)
     if fam == 'dtype':
@@ -771,7 +841,7 @@ def correspond(ctx, proof_ok=True):
     for fam in FAMILIES:
         if fam in ('edges', 'threshold', 'convex'):
             continue
-        for _ in range({'smallchunk': ctx.n(60, 1200), 'polebound': ctx.n(8, 100), 'dtype': ctx.n(16, 300), 'arc': ctx.n(12, 300)}.get(fam, n_per)):
+        for _ in range({'smallchunk': ctx.n(60, 1200), 'polebound': ctx.n(8, 100), 'dtype': ctx.n(16, 300), 'arc': ctx.n(12, 300), 'near': ctx.n(16, 300), 'selfmatch': ctx.n(20, 300)}.get(fam, n_per)):
             c = gen_case(rng, fam)
             if admissible(c):
                 cases.append(c)
@@ -831,7 +901,7 @@ def correspond(ctx, proof_ok=True):
                           {'kind': 'failing-input', 'call': c, 'impl_result': {k: v for k, v in r.items() if k != 'sep'},
                            'meaning': 'the property promises a match list for every admissible input; the call raised instead'}, True)
             continue
-        if c['fam'] != 'threshold' and near_threshold(c, r):
+        if c['fam'] not in ('threshold', 'near') and near_threshold(c, r):
             skipped += 1
             continue
         terms.append(case_term(c, r))
